@@ -500,7 +500,7 @@ def _calculate_ranges(config, start, stop):
     
     ranges = [None]*config.size
     for rank in range(config.size):
-        N1_local = rank*per_worker
+        N1_local = start + rank*per_worker
         N2_local = N1_local+per_worker
     
         if rank <= remainder:
